@@ -596,6 +596,10 @@ func (E *Engine) callFn(fr *Frame, st *State, fn *ssa.Function, args []Val, bind
 		return E.summarise(fr, st, body, tenv, args, res)
 	}
 	if len(body.Blocks) == 0 {
+		if h := E.P.contracts[org]; h != nil && h.Trusted && !fr.spec {
+			// a trusted contract on a function outside the loaded source (its frame: writes nothing)
+			return E.useContract(fr, st, h, fn, args, instr)
+		}
 		if E.P.pureFns[org] {
 			E.note("declared pure (//verif:pure): " + shortName(name) + " has no effect and returns a function of its arguments")
 			return E.pureResult(fr, st, name, res, args, instr)
